@@ -67,23 +67,29 @@ META = {
         "expressions, map/filter, list-like calls feeding the next stage); and on their way into the result "
         "the items are not transformed by any str method other than stripping (a lower()/replace() in one entry point makes the docutils spelling differ from the same "
         "value given as YAML dict, conf.py value or front matter - normalisation belongs in the shared validator). "
-        "R11: an option a document may override is never read from the raw conf.py value (app.config / env.config myst_*, attribute, subscript or getattr) outside the function "
-        "that feeds the validating constructor, except for global_only options or as the fallback of a more specific lookup (.get default, `or`, else-arm). "
-        "R12: read_topmatter appends every front-matter line verbatim (only a strip of line-terminator characters is allowed) and its end-of-block test, evaluated "
-        "abstractly on ten constant probe lines, closes the block exactly where the markdown-it front_matter rule does (marker after 0-3 spaces, not after 4; sibling "
-        "source re-read for tShift / is_code_block). "
+        "R10 also covers custom validators of fields documented as a collection of str that iterate the value: a str and a mapping are excluded before the first iteration "
+        "(concrete list/tuple/set test, an inline deep_iterable with a concrete container - also applied through a local - or an explicit not-isinstance of str and dict/Mapping), "
+        "and when only an ABC such as Iterable is required the caller's object is iterated once (a generator is empty in a second pass). "
+        "R11: outside the function that feeds the validating constructor (a) no option is read from the raw conf.py value (app.config / env.config myst_*, attribute, subscript "
+        "or getattr): it is un-validated and un-normalised; (b) project-wide code (outside parsers/ and mdit_to_docutils/) reads an option a document may override from the "
+        "validated env.myst_config only as the fallback of a more specific lookup (.get default, `or`, else-arm); global_only options are exempt from (b). "
+        "R12: read_topmatter appends every front-matter line verbatim (only a strip of line-terminator characters is allowed, also through loop-local re-bindings of the line) "
+        "and the disjunction of its end-of-block tests, evaluated abstractly over constants (f-strings, re.compile on literal patterns, str methods, local single definitions, the "
+        "opening line bound to a probe) on eighteen (opener, line) probes, closes the block exactly where the markdown-it front_matter rule does: dashes at least as long as the "
+        "opener, indented by 0-3 spaces, followed by spaces only, or a bare '...' line (sibling source re-read for the five facts behind the probe table). "
         "R13: because Sphinx's i18n transform re-parses every msgstr under a ':<translated>' source without front matter (sibling re-read), MystParser.parse stores the config "
         "the document is rendered with (no assignment to that variable between the store and create_md_parser, whichever function performs the merge) in the per-read store "
         "of the environment and starts from it, under a guard, for such sources. "
+        "R14: every option-dependent deprecation notice that exists anywhere (builder or a front end: `<const> in <config>.<field>` guarding a MystWarnings.DEPRECATED emission) "
+        "is decided in BOTH front-end parse functions on the config variable that reaches create_md_parser, with no later assignment to it. "
         "The per-field update is located by role (the function that calls validate_field, reached from merge_file_level directly or through one or two "
         "module-level helpers with parameters substituted), so splitting merge_file_level into helpers keeps every rule deciding."
     ),
     "not_decided": (
         "which markdown-it parser object a document is rendered with (a cross-parse parser cache keyed on a lossy projection of the configuration, e.g. repr(config), is "
         "state outliving a parse and is decided by C15, not here); "
-        "full equivalence of read_topmatter's end-of-block test with the markdown-it front_matter scanner (marker length, trailing text: only the ten probe lines of R12 are decided); "
-        "which other third-party callers re-enter the parser for a part of a document (only Sphinx's i18n transform is tabled in R13); whether code that reads the validated "
-        "GLOBAL config (env.myst_config) at builder level should have used a per-document value (only raw conf reads are decided, R11); "
+        "full equivalence of read_topmatter's end-of-block test with the markdown-it front_matter scanner (marker length, trailing text: only the eighteen (opener, line) probes of R12 are decided); "
+        "which other third-party callers re-enter the parser for a part of a document (only Sphinx's i18n transform is tabled in R13); option-dependent notices other than MystWarnings.DEPRECATED ones (R14 keys on that catalogue member); "
         "normal-form equality of arbitrary value spellings; value ranges beyond what validators state; the bodies of the custom check_* validators against their "
         "annotations (only R2/R7/R8 shape facts); the docutils option-string converters beyond their comma splitting (R9): e.g. whether a textual shortcut in _validate_url_schemes still "
         "recognises every YAML mapping spelling - a fact about a string predicate versus YAML's grammar, value semantics; int/bool/YAML conversion of setting strings; whether a guard that skips the dict merge "
@@ -756,6 +762,8 @@ def r1_validator_types(corpus: Corpus, rep: Report, tier: str):
 def _is_validator_call(corpus: Corpus, f: FunctionInfo, n: ast.Call) -> bool:
     """A call that applies a validator: ``comb(...)(inst, field, value)`` or a named validator function."""
     if isinstance(n.func, ast.Call):
+        return True
+    if isinstance(n.func, ast.Name) and len(n.args) >= 3 and _applied_combinator(f, n) is not None:
         return True
     d = dotted(n.func)
     if d is None:
@@ -1895,6 +1903,132 @@ def _container_verdict(corpus: Corpus, f: FunctionInfo, node: ast.AST, cont: ast
     return verdict, why
 
 
+def _applied_combinator(f: FunctionInfo, call: ast.Call) -> ast.Call | None:
+    """The ``deep_iterable(...)``-style factory call whose product ``call`` applies: ``comb(...)(inst, field, v)`` or
+    ``v_ = comb(...)`` ... ``v_(inst, field, v)`` (single definition)."""
+    dcv = "config.dc_validators."
+    fac = None
+    if isinstance(call.func, ast.Call):
+        fac = call.func
+    elif isinstance(call.func, ast.Name):
+        defs = [n.value for n in f.local_nodes() if isinstance(n, (ast.Assign, ast.AnnAssign)) and n.value is not None and any(isinstance(t, ast.Name) and t.id == call.func.id for t in (n.targets if isinstance(n, ast.Assign) else [n.target]))]
+        if len(defs) == 1 and isinstance(defs[0], ast.Call):
+            fac = defs[0]
+    if fac is not None and dcv in f.module.resolve(dotted(fac.func) or "") + ".":
+        return fac
+    return None
+
+
+CONSUMERS = {"set", "frozenset", "list", "tuple", "sorted", "dict.fromkeys", "any", "all", "sum", "max", "min", "enumerate", "iter", "reversed"}
+
+
+def _consumptions(f: FunctionInfo, name: str) -> list[ast.AST]:
+    """Nodes that iterate the object bound to ``name``: set(x)/list(x)/..., ``for _ in x``, comprehensions over x, ``c in x``."""
+    out: list[ast.AST] = []
+    for n in f.local_nodes():
+        if isinstance(n, ast.Call) and (dotted(n.func) or "") in CONSUMERS and n.args and isinstance(n.args[0], ast.Name) and n.args[0].id == name:
+            out.append(n)
+        elif isinstance(n, ast.For) and isinstance(n.iter, ast.Name) and n.iter.id == name:
+            out.append(n)
+        elif isinstance(n, ast.comprehension) and isinstance(n.iter, ast.Name) and n.iter.id == name:
+            out.append(parent(n))
+        elif isinstance(n, ast.Compare) and len(n.ops) == 1 and isinstance(n.ops[0], (ast.In, ast.NotIn)) and isinstance(n.comparators[0], ast.Name) and n.comparators[0].id == name:
+            out.append(n)
+        elif isinstance(n, ast.Call) and len(n.args) >= 3 and isinstance(n.args[2], ast.Name) and n.args[2].id == name and _applied_combinator(f, n) is not None:
+            out.append(n)  # an inline combinator application iterates the value too
+    return out
+
+
+def _r10_collection_of_str_values(corpus: Corpus, rep: Report) -> int:
+    """Custom validators of fields documented as a collection of str that iterate the value: (a) a str and a mapping are
+    excluded before the value is iterated (a str iterates as characters, a mapping as its keys); (b) when the container
+    test admits one-shot iterators (only an ABC such as Iterable), the caller's object is iterated once."""
+    mod = corpus.mod(MAIN)
+    n = 0
+    by_validator: dict[str, list[Field]] = {}
+    for fld in config_fields(corpus):
+        v = fld.meta.get("validator")
+        if v is None:
+            continue
+        kind = classify_validator(corpus, mod, v)
+        a = ashape(fld.ann)
+        a = a[1] if a[0] == "opt" else a
+        if kind[0] == "custom" and a[0] == "iter" and a[2] == ("prim", "str"):
+            by_validator.setdefault(kind[1].fq, []).append(fld)
+    for fq, flds in sorted(by_validator.items()):
+        f = corpus.func(fq.replace("myst_parser.", "", 1))
+        if len(f.params) < 3:
+            continue
+        val = f.params[2]
+        cfg = get_cfg(f)
+        rebinds = {cfg.stmt_of(x) for x in f.local_nodes() if isinstance(x, (ast.Assign, ast.AnnAssign)) and any(isinstance(t, ast.Name) and t.id == val for t in (x.targets if isinstance(x, ast.Assign) else [x.target]))}
+        cons = sorted(_consumptions(f, val), key=lambda x: (x.lineno, x.col_offset))
+
+        def sees_callers_object(c: ast.AST) -> bool:
+            st = cfg.stmt_of(c)
+            others = rebinds - {st}
+            return cfg.paths_avoiding("ENTRY", st, lambda x: x in others)
+
+        orig = [c for c in cons if sees_callers_object(c)]
+        if not orig:
+            continue
+        names = ", ".join(x.name for x in flds)
+        # (a) what the first iteration of the caller's object can be
+        first = orig[0]
+        n += 1
+        k = f"{fq}|a str or a mapping is not iterated as the collection ({names})"
+        site = f.module.site(first)
+        concrete = False
+        excluded: set[str] = set()
+        abc_only = False
+        inline = [c for c in f.local_nodes() if isinstance(c, ast.Call) and len(c.args) >= 3 and unparse(c.args[2]) == val and _applied_combinator(f, c) is not None and f.module.resolve(dotted(_applied_combinator(f, c).func) or "").endswith("dc_validators.deep_iterable")]
+        for c in inline:
+            shp = vshape(corpus, f.module, _applied_combinator(f, c))
+            if shp[2] is not None and shp[2][0] == "inst" and shp[2][1] and shp[2][1] <= CONCRETE_CONTAINERS and (c is first or cfg.dominates(cfg.stmt_of(c), cfg.stmt_of(first))):
+                concrete = True
+        for t, pol in _context_facts(cfg, first):
+            if isinstance(t, ast.Call) and dotted(t.func) == "isinstance" and len(t.args) == 2 and unparse(t.args[0]) == val:
+                try:
+                    tn = {x.rsplit(".", 1)[-1] for x in _type_names_dotted(t.args[1])} if not isinstance(t.args[1], ast.BinOp) else set(_type_names(t.args[1]))
+                except Unsupported:
+                    continue
+                if pol and tn and tn <= (CONCRETE_CONTAINERS - {"dict", "Dict", "Mapping", "MutableMapping"}):
+                    concrete = True
+                elif pol and tn & STR_ADMITTING:
+                    abc_only = True
+                elif not pol:
+                    excluded |= tn
+        if concrete:
+            rep.ok("C13.R10", k, site, "the value is a concrete list/tuple/set before it is iterated")
+        else:
+            missing = []
+            if "str" not in excluded:
+                missing.append("a str (iterated as its characters; '' becomes the empty collection)")
+            if not (excluded & {"dict", "Mapping", "MutableMapping", "Dict"}):
+                missing.append("a mapping (iterated as its keys: `{x: false}` reads as [x])")
+            if missing:
+                rep.violation("C13.R10", k, site, f"`{short(first, 40)}` iterates the value of {names} (documented as a collection of str) without excluding " + " and ".join(missing))
+            else:
+                rep.ok("C13.R10", k, site, f"str and mapping are rejected before the value is iterated (not isinstance(..., {sorted(excluded)}))")
+        # (b) one-shot iterators
+        if not concrete and abc_only or (not concrete and not excluded and not abc_only):
+            n += 1
+            k = f"{fq}|the caller's iterable is read once ({names})"
+            twice = [(c1, c2) for i, c1 in enumerate(orig) for c2 in orig[i + 1 :] if cfg.stmt_of(c1) is cfg.stmt_of(c2) or cfg.paths_avoiding(cfg.stmt_of(c1), cfg.stmt_of(c2), lambda x: False)]
+            if twice:
+                c1, c2 = twice[0]
+                rep.violation(
+                    "C13.R10",
+                    k,
+                    f.module.site(c2),
+                    f"the value only has to be an Iterable, yet `{short(c1, 30)}` (line {c1.lineno}) and `{short(c2, 30)}` (line {c2.lineno}) both iterate the caller's object: a generator or "
+                    "filter object passes the first pass (validation) and is empty in the second, so the validated value is not the stored one",
+                )
+            else:
+                rep.ok("C13.R10", k, f.module.site(orig[0]), "materialised once; later uses read the materialised copy")
+    return n
+
+
 @rule("C13.R10")
 def r10_str_is_not_a_container_of_str(corpus: Corpus, rep: Report, tier: str):
     rep.rule(
@@ -1930,9 +2064,10 @@ def r10_str_is_not_a_container_of_str(corpus: Corpus, rep: Report, tier: str):
                 )
         # deep_iterable(instance_of(str), <container>) applied inside a custom validator
         for c in f.local_nodes():
-            if isinstance(c, ast.Call) and isinstance(c.func, ast.Call) and (f.module.resolve(dotted(c.func.func) or "") == f"{dcv}.deep_iterable"):
+            fac_ = _applied_combinator(f, c) if isinstance(c, ast.Call) and len(c.args) >= 3 else None
+            if fac_ is not None and (f.module.resolve(dotted(fac_.func) or "") == f"{dcv}.deep_iterable"):
                 n_inst += 1
-                shape = vshape(corpus, f.module, c.func)
+                shape = vshape(corpus, f.module, fac_)
                 k = f"{fq}|deep_iterable applied to `{short(c.args[2], 30) if len(c.args) > 2 else '?'}`: container excludes str"
                 mem, cont = shape[1], shape[2]
                 if not (mem is not None and mem[0] == "inst" and "str" in mem[1]):
@@ -1943,6 +2078,7 @@ def r10_str_is_not_a_container_of_str(corpus: Corpus, rep: Report, tier: str):
                     rep.listed("C13.R10", k, f.module.site(c), f"container test against {sorted(cont[1])}: not known whether a str satisfies it")
                 else:
                     rep.violation("C13.R10", k, f.module.site(c), "members must be str but the container is " + ("not checked" if cont is None else f"only checked against {sorted(cont[1])}") + ": a plain string passes as an iterable of its characters")
+    n_inst += _r10_collection_of_str_values(corpus, rep)
     if n_inst < 4:
         rep.error("C13.R10", f"only {n_inst} member-is-str tests found in the validators (8 on the pinned tree)")
     rep.expect_min("C13.R10", 4, "member-is-str tests in check_url_schemes, check_sub_delimiters, check_inventories and the inline deep_iterable applications")
@@ -2234,23 +2370,31 @@ def _in_fallback_position(n: ast.AST) -> bool:
     return False
 
 
+def _global_config_reads(f: FunctionInfo) -> list[tuple[ast.AST, str]]:
+    """(node, field) for reads of ``<x>.myst_config.<field>``: the validated, project wide configuration."""
+    return [(n, n.attr) for n in f.local_nodes() if isinstance(n, ast.Attribute) and isinstance(n.ctx, ast.Load) and isinstance(n.value, ast.Attribute) and n.value.attr == "myst_config"]
+
+
 @rule("C13.R11")
 def r11_no_raw_conf_reads(corpus: Corpus, rep: Report, tier: str):
     rep.rule(
         "C13.R11",
-        "an option that a document may override is never read from the raw conf.py value (app.config / env.config myst_*) outside the function that builds the validated "
-        "global config, except as the fallback of a per-document lookup: such a read ignores the front-matter value and bypasses validation",
+        "outside the function that builds the validated global config, (a) no option is read from the raw conf.py value (app.config / env.config myst_*: un-validated, un-normalised), "
+        "and (b) project-wide code reads an option a document may override from the validated global config only as the fallback of a per-document lookup",
     )
     fields = {f.name: f for f in config_fields(corpus)}
+
+    def global_only(fld: Field) -> bool:
+        g = fld.meta.get("global_only")
+        return g is not None and not (isinstance(g, ast.Constant) and not g.value)
+
     n = 0
     for f in corpus.all_functions():
         if f.is_lambda or f.module.name.endswith("._docs"):
             continue
-        reads = _raw_conf_reads(f)
-        if not reads:
-            continue
         builds = any(isinstance(c, ast.Call) and (dotted(c.func) or "").rsplit(".", 1)[-1] == CONFIG_CLS and any(kw.arg is None for kw in c.keywords) for c in f.local_nodes())
-        for node, fname in reads:
+        # (a) raw conf reads
+        for node, fname in _raw_conf_reads(f):
             n += 1
             k = f"{f.fq}|reads conf value myst_{fname or '<computed>'}"
             site = f.module.site(node)
@@ -2263,7 +2407,27 @@ def r11_no_raw_conf_reads(corpus: Corpus, rep: Report, tier: str):
             fld = fields.get(fname)
             if fld is None:
                 rep.listed("C13.R11", k, site, "not a MdParserConfig field")
-            elif fld.meta.get("global_only") is not None and not (isinstance(fld.meta["global_only"], ast.Constant) and not fld.meta["global_only"].value):
+                continue
+            rep.violation(
+                "C13.R11",
+                k,
+                site,
+                f"{f.qualname} uses the raw conf.py value `{short(node, 50)}`: it is validated and normalised only inside MdParserConfig (an invalid value makes create_myst_config "
+                f"install the defaults while this read still sees it, a wrong type raises here)"
+                + ("" if global_only(fld) else f", and `{fname}` can be set per document in the front matter, which this read ignores")
+                + " - read env.myst_config (and the per-document value first) instead",
+            )
+        # (b) validated global reads in project-wide code
+        if builds or f.module.name.split(".")[-2:-1] in (["parsers"], ["mdit_to_docutils"]) or ".parsers." in f.module.name or ".mdit_to_docutils." in f.module.name:
+            continue  # the builder itself, and the code that owns the per-document config
+        for node, fname in _global_config_reads(f):
+            fld = fields.get(fname)
+            if fld is None:
+                continue
+            n += 1
+            k = f"{f.fq}|reads global config value {fname}"
+            site = f.module.site(node)
+            if global_only(fld):
                 rep.ok("C13.R11", k, site, "global_only option: there is no per-document value")
             elif _in_fallback_position(node):
                 rep.ok("C13.R11", k, site, "only the fallback of a more specific (per-document) lookup")
@@ -2272,139 +2436,207 @@ def r11_no_raw_conf_reads(corpus: Corpus, rep: Report, tier: str):
                     "C13.R11",
                     k,
                     site,
-                    f"{f.qualname} decides on the raw conf.py value `{short(node, 50)}`: `{fname}` can be set per document in the front matter (and is validated/normalised only in "
-                    "MdParserConfig), so a document that sets it in its front matter is treated differently from one built with the same value in conf.py",
+                    f"{f.qualname} decides on the project-wide value `{short(node, 50)}` although `{fname}` can be set per document in the front matter: a document that sets it "
+                    "there is treated differently from one built with the same value in conf.py (look the per-document value up first and fall back to the global one)",
                 )
-    rep.expect_min("C13.R11", 2, "the builder's f-string read and the resolver's fallback read on the pinned tree")
+    rep.expect_min("C13.R11", 3, "the builder's f-string read, the resolver's fallback read and the two global_only reads of the MathJax override on the pinned tree")
 
 
 # ---------------------------------------------------------------------------
 # R12 read_topmatter hands the front-matter block to YAML as markdown-it delimits it
 
-TOPMATTER_PROBES = [("---", True), (" ---", True), ("  ---", True), ("   ---", True), ("...", True), ("  ...", True), ("    ---", False), ("a: ---", False), ("- item", False), ("key: value", False)]
+# (opening line, candidate line, does the markdown-it front_matter rule close the block there?)
+# facts re-read from the sibling: the marker is looked for after the line's indentation (tShift), a code-block
+# indentation (>= 4) is skipped, the run of '-' must be at least as long as the opener and followed by spaces only,
+# and a line whose content is exactly '...' closes at any indentation.
+TOPMATTER_PROBES = [
+    ("---", "---", True), ("---", " ---", True), ("---", "   ---", True), ("---", "----", True), ("---", "---  ", True),
+    ("---", "...", True), ("---", "  ...", True),
+    ("---", "    ---", False), ("---", "--", False), ("---", "--- DRAFT ---", False), ("---", "  --- x", False), ("---", "... and so on", False),
+    ("---", "a: ---", False), ("---", "- item", False), ("---", "key: value", False),
+    ("-----", "---", False), ("-----", "-----", True), ("-----", " ------", True),
+]
 
 
-def _eval_line_predicate(mod: Module, e: ast.expr, var: str, line: str):
-    """Abstractly evaluate a terminator test on a constant probe line (constants and str/re primitives only)."""
-    import re as _re
+class _AbstractEval:
+    """Evaluates expressions of one function over constants: literals, str methods, len, slices, comparisons, boolean
+    operators, f-strings, re.compile/match on literal patterns, and local names through their single definition."""
 
-    def val(x: ast.expr):
-        if isinstance(x, ast.Name) and x.id == var:
-            return line
+    def __init__(self, f: FunctionInfo, env: dict[str, object]):
+        self.f = f
+        self.mod = f.module
+        self.env = dict(env)
+        self.depth = 0
+
+    def name(self, nm: str):
+        if nm in self.env:
+            return self.env[nm]
+        if nm in self.mod.const_nodes:
+            return self.val(self.mod.const_nodes[nm])
+        defs = [n.value for n in self.f.local_nodes() if isinstance(n, ast.Assign) and len(n.targets) == 1 and isinstance(n.targets[0], ast.Name) and n.targets[0].id == nm]
+        if len(defs) != 1:
+            raise Unsupported(f"name `{nm}` has no single constant definition")
+        self.depth += 1
+        if self.depth > 12:
+            raise Unsupported("definition chain too deep")
+        try:
+            v = self.val(defs[0])
+        finally:
+            self.depth -= 1
+        self.env[nm] = v
+        return v
+
+    def val(self, x: ast.expr):
+        import re as _re
+
+        if isinstance(x, ast.Name):
+            return self.name(x.id)
         if isinstance(x, ast.Constant):
             return x.value
         if isinstance(x, ast.Tuple):
-            return tuple(val(y) for y in x.elts)
-        if isinstance(x, ast.Name) and x.id in mod.const_nodes:
-            return val(mod.const_nodes[x.id])
-        if isinstance(x, ast.Call) and isinstance(x.func, ast.Attribute) and x.func.attr in ("lstrip", "rstrip", "strip", "startswith", "endswith", "expandtabs") and not x.keywords:
-            recv = val(x.func.value)
-            if not isinstance(recv, str):
-                raise Unsupported("receiver")
-            return getattr(recv, x.func.attr)(*[val(a) for a in x.args])
-        if isinstance(x, ast.Call) and (dotted(x.func) or "") in ("re.match", "re.fullmatch", "re.search") and len(x.args) == 2:
-            return getattr(_re, dotted(x.func).split(".")[1])(val(x.args[0]), val(x.args[1]))
-        if isinstance(x, ast.Call) and isinstance(x.func, ast.Attribute) and x.func.attr in ("match", "fullmatch", "search") and isinstance(x.func.value, ast.Name) and x.func.value.id in mod.const_nodes and len(x.args) == 1:
-            c = mod.const_nodes[x.func.value.id]
-            if isinstance(c, ast.Call) and dotted(c.func) == "re.compile" and c.args:
-                return getattr(_re.compile(*[val(a) for a in c.args]), x.func.attr)(val(x.args[0]))
+            return tuple(self.val(y) for y in x.elts)
+        if isinstance(x, ast.JoinedStr):
+            out = []
+            for part in x.values:
+                if isinstance(part, ast.Constant):
+                    out.append(str(part.value))
+                elif isinstance(part, ast.FormattedValue) and part.format_spec is None and part.conversion == -1:
+                    out.append(format(self.val(part.value)))
+                else:
+                    raise Unsupported("f-string with a format spec")
+            return "".join(out)
+        if isinstance(x, ast.Call):
+            d = dotted(x.func) or ""
+            if d == "len" and len(x.args) == 1:
+                return len(self.val(x.args[0]))
+            if d in ("str", "int", "bool") and len(x.args) == 1:
+                return {"str": str, "int": int, "bool": bool}[d](self.val(x.args[0]))
+            if d == "next" and x.args and "__opener__" in self.env:
+                return self.env["__opener__"]
+            if d in ("re.match", "re.fullmatch", "re.search") and len(x.args) in (2, 3):
+                return getattr(_re, d.split(".")[1])(*[self.val(a) for a in x.args])
+            if d == "re.compile" and x.args:
+                return _re.compile(*[self.val(a) for a in x.args])
+            if isinstance(x.func, ast.Attribute) and not x.keywords:
+                recv = self.val(x.func.value)
+                m = x.func.attr
+                if isinstance(recv, str) and m in ("lstrip", "rstrip", "strip", "startswith", "endswith", "expandtabs", "removeprefix", "removesuffix", "isspace", "count", "find"):
+                    return getattr(recv, m)(*[self.val(a) for a in x.args])
+                if isinstance(recv, _re.Pattern) and m in ("match", "fullmatch", "search"):
+                    return getattr(recv, m)(*[self.val(a) for a in x.args])
+            raise Unsupported(f"call not evaluable: {short(x, 50)}")
         if isinstance(x, ast.UnaryOp) and isinstance(x.op, ast.Not):
-            return not val(x.operand)
-        if isinstance(x, ast.Call) and dotted(x.func) == "len" and len(x.args) == 1:
-            return len(val(x.args[0]))
-        if isinstance(x, ast.BinOp) and isinstance(x.op, (ast.Add, ast.Sub)):
-            l, r = val(x.left), val(x.right)
-            return l + r if isinstance(x.op, ast.Add) else l - r
-        if isinstance(x, ast.Subscript) and isinstance(x.slice, ast.Slice) and all(b is None or isinstance(b, ast.Constant) for b in (x.slice.lower, x.slice.upper, x.slice.step)):
-            return val(x.value)[slice(*[None if b is None else b.value for b in (x.slice.lower, x.slice.upper, x.slice.step)])]
-        if isinstance(x, ast.Compare) and len(x.ops) == 1 and isinstance(x.ops[0], (ast.Lt, ast.LtE, ast.Gt, ast.GtE)):
-            l, r = val(x.left), val(x.comparators[0])
-            op = x.ops[0]
-            return l < r if isinstance(op, ast.Lt) else l <= r if isinstance(op, ast.LtE) else l > r if isinstance(op, ast.Gt) else l >= r
+            return not self.val(x.operand)
+        if isinstance(x, ast.BinOp) and isinstance(x.op, (ast.Add, ast.Sub, ast.Mult)):
+            l, r = self.val(x.left), self.val(x.right)
+            return l + r if isinstance(x.op, ast.Add) else l - r if isinstance(x.op, ast.Sub) else l * r
+        if isinstance(x, ast.Subscript) and isinstance(x.slice, ast.Slice):
+            parts = [None if b is None else self.val(b) for b in (x.slice.lower, x.slice.upper, x.slice.step)]
+            return self.val(x.value)[slice(*parts)]
+        if isinstance(x, ast.Subscript):
+            return self.val(x.value)[self.val(x.slice)]
         if isinstance(x, ast.BoolOp):
-            vs = [val(v) for v in x.values]
-            return all(vs) if isinstance(x.op, ast.And) else any(vs)
-        if isinstance(x, ast.Compare) and len(x.ops) == 1 and isinstance(x.ops[0], (ast.Eq, ast.NotEq, ast.In, ast.NotIn, ast.Is, ast.IsNot)):
-            l, r = val(x.left), val(x.comparators[0])
+            res = None
+            for v in x.values:
+                res = self.val(v)
+                if isinstance(x.op, ast.And) and not res:
+                    return res
+                if isinstance(x.op, ast.Or) and res:
+                    return res
+            return res
+        if isinstance(x, ast.Compare) and len(x.ops) == 1:
+            l, r = self.val(x.left), self.val(x.comparators[0])
             op = x.ops[0]
-            return l == r if isinstance(op, ast.Eq) else l != r if isinstance(op, ast.NotEq) else l in r if isinstance(op, ast.In) else l not in r if isinstance(op, ast.NotIn) else l is r if isinstance(op, ast.Is) else l is not r
-        raise Unsupported(f"terminator test not evaluable: {short(x, 50)}")
-
-    return bool(val(e))
+            table = {ast.Eq: lambda: l == r, ast.NotEq: lambda: l != r, ast.In: lambda: l in r, ast.NotIn: lambda: l not in r, ast.Is: lambda: l is r, ast.IsNot: lambda: l is not r,
+                     ast.Lt: lambda: l < r, ast.LtE: lambda: l <= r, ast.Gt: lambda: l > r, ast.GtE: lambda: l >= r}
+            if type(op) in table:
+                return table[type(op)]()
+        raise Unsupported(f"expression not evaluable: {short(x, 50)}")
 
 
 @rule("C13.R12")
 def r12_topmatter_block_as_markdown_delimits_it(corpus: Corpus, rep: Report, tier: str):
     rep.rule(
         "C13.R12",
-        "read_topmatter passes the front-matter lines to YAML verbatim (only the line terminator is removed) and ends the block where the markdown-it front_matter rule ends it "
-        "(closing marker indented by up to three spaces)",
+        "read_topmatter passes the front-matter lines to YAML verbatim (only the line terminator is removed) and ends the block exactly where the markdown-it front_matter rule ends it "
+        "(a run of dashes at least as long as the opener, indented by up to three spaces and followed by spaces only, or a bare '...' line)",
     )
     rt = corpus.func(f"{MAIN}:read_topmatter")
     mod = rt.module
-    # the loop that collects the block
     loops = [n for n in rt.local_nodes() if isinstance(n, ast.For) and isinstance(n.target, ast.Name) and any(isinstance(x, ast.Break) for x in ast.walk(n))]
     if len(loops) != 1:
         raise Unsupported("read_topmatter: the loop collecting the front-matter lines was not found")
     lp = loops[0]
     var = lp.target.id
-    # (a) what is appended
-    adds = [c for c in ast.walk(lp) if isinstance(c, ast.Call) and isinstance(c.func, ast.Attribute) and c.func.attr in ("append", "write") and c.args and var in _free_names(c.args[0])]
+    # names that hold (a form of) the current line inside the loop
+    line_names = {var}
+    for _ in range(3):
+        for n in ast.walk(lp):
+            if isinstance(n, ast.Assign) and len(n.targets) == 1 and isinstance(n.targets[0], ast.Name) and _free_names(n.value) & line_names:
+                line_names.add(n.targets[0].id)
+
+    def terminator_only(x: ast.Call) -> bool:
+        return x.func.attr in ("rstrip", "removesuffix") and len(x.args) == 1 and isinstance(x.args[0], ast.Constant) and isinstance(x.args[0].value, str) and set(x.args[0].value) <= set("\r\n")
+
+    # (a) what reaches YAML: the appended expression and every loop-local definition it is built from
+    adds = [c for c in ast.walk(lp) if isinstance(c, ast.Call) and isinstance(c.func, ast.Attribute) and c.func.attr in ("append", "write") and c.args and _free_names(c.args[0]) & line_names]
     if not adds:
         raise Unsupported("read_topmatter: no append of the current line found")
-    for c in adds:
-        k = f"{rt.fq}|front-matter lines reach YAML verbatim"
-        bad = None
-        for x in ast.walk(c.args[0]):
-            if isinstance(x, ast.Call) and isinstance(x.func, ast.Attribute) and var in _free_names(x.func.value):
-                m = x.func.attr
-                if m in ("rstrip", "removesuffix") and len(x.args) == 1 and isinstance(x.args[0], ast.Constant) and isinstance(x.args[0].value, str) and set(x.args[0].value) <= set("\r\n"):
+    k = f"{rt.fq}|front-matter lines reach YAML verbatim"
+    exprs = [c.args[0] for c in adds] + [n.value for n in ast.walk(lp) if isinstance(n, ast.Assign) and len(n.targets) == 1 and isinstance(n.targets[0], ast.Name) and n.targets[0].id in line_names]
+    bad = None
+    for e in exprs:
+        for x in ast.walk(e):
+            if isinstance(x, ast.Call) and isinstance(x.func, ast.Attribute) and _free_names(x.func.value) & line_names and isinstance(x.func.value, (ast.Name, ast.Call)):
+                if terminator_only(x):
                     continue
-                if m in ("splitlines", "format", "encode", "decode"):
+                if x.func.attr in ("splitlines", "format", "encode", "decode", "join"):
                     raise Unsupported(f"read_topmatter: line handling `{short(x, 40)}` not understood")
-                bad = x
-        if bad is not None:
-            rep.violation(
-                "C13.R12",
-                k,
-                mod.site(bad),
-                f"`{short(bad, 40)}` alters every front-matter line before YAML sees it: trailing spaces are significant inside multi-line scalars (a Markdown hard break in a "
-                "substitution), so the value applied differs from the same value set globally (and from what the renderer's own yaml.safe_load of the block yields)",
-            )
-        else:
-            rep.ok("C13.R12", k, mod.site(c), "only the line terminator is stripped")
-    # (b) where the block ends
-    brk = [n for n in ast.walk(lp) if isinstance(n, ast.If) and any(isinstance(x, ast.Break) for x in n.body) and var in _free_names(n.test)]
-    if len(brk) != 1:
+                bad = bad or x
+    if bad is not None:
+        rep.violation(
+            "C13.R12",
+            k,
+            mod.site(bad),
+            f"`{short(bad, 40)}` alters every front-matter line before YAML sees it: trailing spaces are significant inside multi-line scalars (a Markdown hard break in a "
+            "substitution), so the value applied differs from the same value set globally (and from what the renderer's own yaml.safe_load of the block yields)",
+        )
+    else:
+        rep.ok("C13.R12", k, mod.site(adds[0]), "only the line terminator is stripped")
+    # (b) where the block ends: the disjunction of every `if <test on the line>: break` of the loop
+    brks = [n for n in ast.walk(lp) if isinstance(n, ast.If) and any(isinstance(x, ast.Break) for x in n.body) and not n.orelse]
+    brks = [n for n in brks if len(n.body) == 1]
+    if not brks:
         raise Unsupported("read_topmatter: the test that ends the block was not found")
-    test = brk[0].test
     try:
         fm = corpus.sibling("mdit_py_plugins/front_matter/index.py")
         rep.saw_sibling("mdit_py_plugins/front_matter/index.py")
-        rule_fn = fm.func("_front_matter_rule")
-        txt = unparse(rule_fn.node)
-        if "tShift[nextLine]" not in txt or "is_code_block(state, nextLine)" not in txt:
-            rep.error("C13.R12", "mdit_py_plugins front_matter rule no longer looks for the closing marker after the line's indentation (oracle changed)")
+        txt = unparse(fm.func("_front_matter_rule").node)
+        for fact in ("tShift[nextLine]", "is_code_block(state, nextLine)", "pos - start < marker_count", "== '...'", "state.skipSpaces(pos)"):
+            if fact not in txt:
+                rep.error("C13.R12", f"mdit_py_plugins front_matter rule no longer contains `{fact}` (oracle changed: re-derive the probe table)")
     except AnchorMissing as e:
         rep.error("C13.R12", f"sibling oracle missing: {e}")
     k = f"{rt.fq}|block ends where the markdown-it front_matter rule ends it"
     wrong = []
-    for probe, want in TOPMATTER_PROBES:
-        got = _eval_line_predicate(mod, test, var, probe)
+    for opener, probe, want in TOPMATTER_PROBES:
+        ev = _AbstractEval(rt, {"__opener__": opener, **{nm: probe for nm in line_names}})
+        got = any(bool(ev.val(b.test)) for b in brks)
         if got != want:
-            wrong.append((probe, want))
+            wrong.append((opener, probe, want))
     if wrong:
-        probe, want = wrong[0]
+        opener, probe, want = wrong[0]
         rep.violation(
             "C13.R12",
             k,
-            mod.site(brk[0]),
-            f"the end-of-block test `{short(test, 60)}` {'does not stop' if want else 'stops'} at the line {probe!r}, but the markdown-it front_matter rule "
-            f"{'closes the block there (marker after up to three spaces of indentation)' if want else 'does not'}: the renderer and read_topmatter see different YAML, "
-            "so 'myst:' options of such a block are silently not applied",
+            mod.site(brks[0]),
+            f"after the opening line {opener!r} the end-of-block test(s) `{' / '.join(short(b.test, 40) for b in brks)}` {'do not stop' if want else 'stop'} at the line {probe!r}, but the markdown-it "
+            f"front_matter rule {'closes the block there' if want else 'does not (the marker run must be at least as long as the opener, indented by at most three spaces and followed by spaces only; or a bare ...)'}: "
+            "the renderer and read_topmatter see different YAML, so 'myst:' options after/before that line are silently not applied"
+            + (f" ({len(wrong)} of {len(TOPMATTER_PROBES)} probe lines disagree)" if len(wrong) > 1 else ""),
         )
     else:
-        rep.ok("C13.R12", k, mod.site(brk[0]), f"{len(TOPMATTER_PROBES)} probe lines agree (indent 0-3 closes, 4 does not)")
+        rep.ok("C13.R12", k, mod.site(brks[0]), f"{len(TOPMATTER_PROBES)} (opener, line) probes agree")
     rep.expect_min("C13.R12", 2, "the append and the terminator test of read_topmatter")
 
 
@@ -2482,6 +2714,96 @@ def r13_reparse_uses_file_level_config(corpus: Corpus, rep: Report, tier: str):
     else:
         rep.ok("C13.R13", k, mod.site(rd), f"{key}: the config the document is rendered with is stored, and read back (under `{gr[0][:40]}`) for re-parsed messages")
     rep.expect_min("C13.R13", 1, "MystParser.parse")
+
+
+# ---------------------------------------------------------------------------
+# R14 notices about a configured option look at the configuration the document is parsed with
+
+
+def _mentions_deprecated(stmts: list[ast.stmt]) -> bool:
+    for st in stmts:
+        for x in ast.walk(st):
+            d = dotted(x) if isinstance(x, ast.Attribute) else None
+            if d and (d.endswith("MystWarnings.DEPRECATED") or d.endswith("MystWarnings.DEPRECATED.value")):
+                return True
+    return False
+
+
+def _option_membership_tests(test: ast.expr) -> list[tuple[str, str, ast.expr]]:
+    """(constant, field, receiver) for every positive conjunct ``<const> in <recv>.<field>`` of ``test``."""
+    out = []
+    for t, pol in flow_facts(test, True):
+        if pol and isinstance(t, ast.Compare) and len(t.ops) == 1 and isinstance(t.ops[0], ast.In) and isinstance(t.left, ast.Constant) and isinstance(t.left.value, str) and isinstance(t.comparators[0], ast.Attribute):
+            out.append((t.left.value, t.comparators[0].attr, t.comparators[0].value))
+    return out
+
+
+@rule("C13.R14")
+def r14_option_notices_use_the_document_config(corpus: Corpus, rep: Report, tier: str):
+    rep.rule(
+        "C13.R14",
+        "a warning that depends on a configured option (e.g. the deprecation notice of an extension) is decided in every front end on the configuration the document is "
+        "parsed with - after the front matter is merged in - so that enabling the option in the front matter warns like enabling it globally",
+    )
+    fields = {f.name for f in config_fields(corpus)}
+    # front-end parse functions: they hand a config local to create_md_parser
+    fronts: list[tuple[FunctionInfo, str, ast.Call]] = []
+    for fq in ("parsers.docutils_:Parser.parse", "parsers.sphinx_:MystParser.parse"):
+        f = corpus.func(fq)
+        mk = [c for c in f.local_nodes() if isinstance(c, ast.Call) and (dotted(c.func) or "").rsplit(".", 1)[-1] == "create_md_parser" and c.args and isinstance(c.args[0], ast.Name)]
+        if not mk:
+            raise Unsupported(f"{fq}: create_md_parser(<config>, ...) not found")
+        fronts.append((f, mk[0].args[0].id, mk[0]))
+    # the notices that exist anywhere (global builder or a front end)
+    notices: dict[tuple[str, str], str] = {}
+    scan = [corpus.func("sphinx_ext.main:create_myst_config")] + [f for f, _, _ in fronts]
+    for f in scan:
+        for n in f.local_nodes():
+            if isinstance(n, ast.If) and _mentions_deprecated(n.body):
+                for const, fld, recv in _option_membership_tests(n.test):
+                    if fld in fields:
+                        notices.setdefault((const, fld), f.module.site(n))
+    if not notices:
+        rep.listed("C13.R14", "no option-dependent deprecation notice in the package", "myst_parser", "nothing to decide")
+        return
+    for (const, fld), origin in sorted(notices.items()):
+        for f, cvar, mk in fronts:
+            cfg = get_cfg(f)
+            mk_st = cfg.stmt_of(mk)
+            k = f"{f.fq}|notice for {const!r} in {fld} is decided on the document's final config"
+            tests = [n for n in f.local_nodes() if isinstance(n, ast.If) and _mentions_deprecated(n.body) and any(c == const and fl == fld and isinstance(r, ast.Name) and r.id == cvar for c, fl, r in _option_membership_tests(n.test))]
+            if not tests:
+                rep.violation(
+                    "C13.R14",
+                    k,
+                    f.site(),
+                    f"{f.qualname} never tests `{const!r} in {cvar}.{fld}` for the [myst.deprecated] notice (it exists at {origin}): a document that enables {const!r} only in its "
+                    "front matter uses the option without the warning the same global setting produces",
+                )
+                continue
+
+            def assigns(n) -> bool:
+                if isinstance(n, ast.Assign):
+                    return any(isinstance(x, ast.Name) and x.id == cvar for t in n.targets for x in ast.walk(t))
+                return isinstance(n, (ast.AnnAssign, ast.AugAssign)) and isinstance(n.target, ast.Name) and n.target.id == cvar
+
+            bad = None
+            for t in tests:
+                for n in cfg.nodes:
+                    if assigns(n) and cfg.paths_avoiding(t, n, lambda x: False) and cfg.paths_avoiding(n, mk_st, lambda x: False):
+                        bad = (t, n)
+            if bad:
+                t, n = bad
+                rep.violation(
+                    "C13.R14",
+                    k,
+                    f.module.site(t),
+                    f"the notice is decided on `{cvar}` before `{short(n, 60)}` (line {n.lineno}) changes it: the test sees the global configuration only, so {const!r} enabled in the "
+                    "document's front matter is used without the warning",
+                )
+            else:
+                rep.ok("C13.R14", k, f.module.site(tests[0]), f"`{cvar}` is not assigned again before create_md_parser")
+    rep.expect_min("C13.R14", 2, "the attrs_image notice in both front ends")
 
 
 # ---------------------------------------------------------------------------
@@ -2671,7 +2993,7 @@ def _restored_in_finally(f: FunctionInfo, node: ast.AST) -> str | None:
 FRESH_CALLS = {"set", "frozenset", "dict", "list", "sorted", "copy", "deepcopy", "copy.copy", "copy.deepcopy"}
 
 
-def _is_fresh(f: FunctionInfo, e: ast.expr, depth: int = 0) -> bool:
+def _is_fresh(f: FunctionInfo, e: ast.expr, depth: int = 0, at: ast.AST | None = None) -> bool:
     if isinstance(e, (ast.Dict, ast.Set, ast.List, ast.DictComp, ast.SetComp, ast.ListComp)):
         return True
     if isinstance(e, ast.Call):
@@ -2680,7 +3002,17 @@ def _is_fresh(f: FunctionInfo, e: ast.expr, depth: int = 0) -> bool:
     if isinstance(e, ast.Name) and depth < 3:
         defs = [n.value for n in f.local_nodes() if isinstance(n, ast.Assign) and any(isinstance(t, ast.Name) and t.id == e.id for t in n.targets)]
         defs += [n.value for n in f.local_nodes() if isinstance(n, ast.AnnAssign) and isinstance(n.target, ast.Name) and n.target.id == e.id and n.value is not None]
-        return bool(defs) and e.id not in f.params and all(_is_fresh(f, d, depth + 1) for d in defs)
+        if not defs or not all(_is_fresh(f, d, depth + 1) for d in defs):
+            return False
+        if e.id not in f.params:
+            return True
+        # a parameter re-bound to a fresh container (`value = set(value)`): fresh where the caller's object can no
+        # longer reach the use, i.e. every path from the entry to `at` passes one of the re-binding assignments
+        if at is None:
+            return False
+        cfg = get_cfg(f)
+        rebinds = {cfg.stmt_of(n) for n in f.local_nodes() if isinstance(n, (ast.Assign, ast.AnnAssign)) and any(isinstance(t, ast.Name) and t.id == e.id for t in (n.targets if isinstance(n, ast.Assign) else [n.target]))}
+        return not cfg.paths_avoiding("ENTRY", cfg.stmt_of(at), lambda x: x in rebinds)
     return False
 
 
@@ -2704,8 +3036,8 @@ def _fresh_container_per_instance(corpus: Corpus, rep: Report, fname: str, user:
     if not stores:
         rep.violation("C13.R4", k, vf.site(), f"`{fname}` is mutated in place by {user.qualname}, but {vf.qualname} never stores a fresh container: copy() shares the object with the global configuration")
         return
-    fresh_stmts = {cfg.stmt_of(st.node) for st in stores if st.value is not None and _is_fresh(vf, st.value)}
-    stale = [st for st in stores if st.value is not None and not _is_fresh(vf, st.value)]
+    fresh_stmts = {cfg.stmt_of(st.node) for st in stores if st.value is not None and _is_fresh(vf, st.value, at=st.node)}
+    stale = [st for st in stores if st.value is not None and not _is_fresh(vf, st.value, at=st.node)]
     site = vf.module.site(stores[0].node) if stores else vf.site()
     if stale:
         rep.violation("C13.R4", k, vf.module.site(stale[0].node), f"{vf.qualname} stores `{short(stale[0].value, 40)}`, not a freshly built container, although {user.qualname} mutates `{fname}` in place: the copy made for a document shares the object with the global configuration")
@@ -3267,7 +3599,7 @@ def r6_entry_points_funnel(corpus: Corpus, rep: Report, tier: str):
     rep.expect_min("C13.R6", 9, "post_init, validate_fields, validate_field, copy, 2x constructor, 2x handler, 2x omit filter")
 
 
-RULES = [r1_validator_types, r2_commit_after_validate, r3_no_raw_overwrite, r4_config_writers, r5_invalid_value_path, r6_entry_points_funnel, r7_short_circuit_consistency, r8_truthiness_for_none, r9_comma_lists_split_like_docutils, r10_str_is_not_a_container_of_str, r11_no_raw_conf_reads, r12_topmatter_block_as_markdown_delimits_it, r13_reparse_uses_file_level_config]
+RULES = [r1_validator_types, r2_commit_after_validate, r3_no_raw_overwrite, r4_config_writers, r5_invalid_value_path, r6_entry_points_funnel, r7_short_circuit_consistency, r8_truthiness_for_none, r9_comma_lists_split_like_docutils, r10_str_is_not_a_container_of_str, r11_no_raw_conf_reads, r12_topmatter_block_as_markdown_delimits_it, r13_reparse_uses_file_level_config, r14_option_notices_use_the_document_config]
 
 
 # ---------------------------------------------------------------------------
@@ -3736,4 +4068,69 @@ def mutants(corpus: Corpus):
                 seg = _seg(du, site)
                 out.append(Mutant("c13-url-schemes-two-stage-split-keeps-empty-items", "C13.R9", du.rel, splice(du.src, st, f"_items = (i.strip() for i in {seg})\n{ind}{tgt} = dict.fromkeys(x for x in _items)"), expect="stripped and empty items dropped"))
                 out.append(Mutant("c13-url-schemes-two-stage-split-lower-cases-in-second-stage", "C13.R9", du.rel, splice(du.src, st, f"_items = (i.strip() for i in {seg})\n{ind}{tgt} = dict.fromkeys(x.lower() for x in _items if x)"), expect="items pass through unchanged"))
+    # ---- round 14: second bug hunt - reverts and partial weakenings of the repairs
+    # 2cd823c read_topmatter closes the block like the markdown-it rule
+    rt = main.func("read_topmatter")
+    js = find_node(rt, lambda n: isinstance(n, ast.JoinedStr) and isinstance(parent(n), ast.Call) and dotted(parent(n).func) == "re.compile")
+    if js is not None:
+        seg = _seg(main, js)
+        if "[ \\t]*$" in seg:
+            out.append(Mutant("c13-2cd823c-reverted-closing-line-may-have-trailing-text", "C13.R12", main.rel, splice(main.src, js, seg.replace("[ \\t]*$", "")), expect="block ends where"))
+        import re as _re_m
+
+        m_ = _re_m.search(r"\{\{\{(\w+)\},\}\}", seg)
+        if m_:
+            out.append(Mutant("c13-closing-marker-shorter-than-the-opener-accepted", "C13.R12", main.rel, splice(main.src, js, seg.replace(m_.group(0), "{{3,}}")), expect="block ends where"))
+    dots = find_node(rt, lambda n: isinstance(n, ast.Compare) and isinstance(n.comparators[0], ast.Constant) and n.comparators[0].value == "..." and isinstance(n.ops[0], ast.Eq))
+    if dots is not None:
+        out.append(Mutant("c13-line-starting-with-dots-closes-the-block", "C13.R12", main.rel, splice(main.src, dots, f'{_seg(main, dots.left)}.startswith("...")'), expect="block ends where"))
+    # 8e31849 check_extensions
+    f = main.func("check_extensions")
+    tst = find_node(f, lambda n: isinstance(n, ast.If) and isinstance(n.test, ast.BoolOp) and isinstance(n.test.op, ast.Or) and any(isinstance(x, ast.Raise) for x in n.body) and "Iterable" in unparse(n.test))
+    if tst is not None:
+        excl = next((v for v in tst.test.values if isinstance(v, ast.Call) and dotted(v.func) == "isinstance"), None)
+        rest = [v for v in tst.test.values if v is not excl]
+        if excl is not None and rest:
+            out.append(Mutant("c13-8e31849-reverted-extensions-only-tested-for-iterable", "C13.R10", main.rel, splice(main.src, tst.test, " or ".join(_seg(main, v) for v in rest)), expect="not iterated as the collection"))
+            tn = sorted(_type_names(excl.args[1]) - {"dict"})
+            if tn and "dict" in _type_names(excl.args[1]):
+                out.append(Mutant("c13-extensions-mapping-no-longer-excluded", "C13.R10", main.rel, splice(main.src, excl.args[1], " | ".join(tn)), expect="not iterated as the collection"))
+    mat = find_node(f, lambda n: isinstance(n, ast.Assign) and len(n.targets) == 1 and isinstance(n.targets[0], ast.Name) and n.targets[0].id == f.params[2] and isinstance(n.value, ast.Call) and dotted(n.value.func) == "set")
+    uses = [n for n in f.local_nodes() if isinstance(n, ast.Name) and n.id == f.params[2] and isinstance(n.ctx, ast.Load) and mat is not None and n.lineno > mat.lineno and isinstance(parent(n), (ast.Attribute, ast.Call)) and not (isinstance(parent(n), ast.Call) and dotted(parent(n).func) in ("repr", "str"))]
+    uses = [n for n in uses if not any(isinstance(a_, (ast.JoinedStr, ast.Raise)) for a_ in ancestors(n))]
+    if mat is not None and uses:
+        out.append(Mutant("c13-8e31849-reverted-extensions-iterable-read-twice", "C13.R10", main.rel, _splice_many(main.src, [(mat, "pass")] + [(u, f"set({u.id})") for u in uses]), expect="read once"))
+    # 25b6484 / d5e2ee9 resolver
+    mr = corpus.mod("sphinx_ext.myst_refs")
+    f = mr.func("MystReferenceResolver.run")
+    gr_ = next((nd for nd, nm in _global_config_reads(f) if nm == "ref_domains"), None)
+    if gr_ is not None:
+        base = _seg(mr, gr_.value.value)  # <x> of <x>.myst_config.ref_domains
+        out.append(Mutant("c13-25b6484-reverted-resolver-falls-back-to-the-raw-conf-value", "C13.R11", mr.rel, splice(mr.src, gr_, f"{base}.config.myst_ref_domains"), expect="reads conf value"))
+        top = gr_
+        while isinstance(parent(top), (ast.Call, ast.Attribute)) and not isinstance(parent(top), ast.stmt):
+            top = parent(top)
+        if top is not gr_:
+            out.append(Mutant("c13-d5e2ee9-reverted-resolver-reads-the-global-ref-domains-only", "C13.R11", mr.rel, splice(mr.src, top, _seg(mr, gr_)), expect="reads global config value"))
+            out.append(Mutant("c13-resolver-prefers-the-global-ref-domains", "C13.R11", mr.rel, splice(mr.src, top, f"({_seg(mr, gr_)} or {_seg(mr, top)})"), expect="reads global config value"))
+    mj = corpus.mod("sphinx_ext.mathjax")
+    f = mj.func("override_mathjax")
+    gu = next((nd for nd, nm in _global_config_reads(f) if nm == "update_mathjax"), None)
+    if gu is not None:
+        out.append(Mutant("c13-mathjax-opt-out-read-from-the-raw-conf-value", "C13.R11", mj.rel, splice(mj.src, gu, f"{_seg(mj, gu.value.value).rsplit('.', 1)[0]}.config.myst_update_mathjax"), expect="reads conf value"))
+    # 45d3d4c deprecation notice on the document's config
+    du = corpus.mod("parsers.docutils_")
+    f = du.func("Parser.parse")
+    note = find_node(f, lambda n: isinstance(n, ast.If) and _mentions_deprecated(n.body) and n in f.node.body)
+    tr = find_node(f, lambda n: isinstance(n, ast.Try) and "read_topmatter" in unparse(n) and n in f.node.body)
+    if note is not None and tr is not None and note.lineno > tr.lineno:
+        out.append(Mutant("c13-45d3d4c-reverted-docutils-notice-decided-before-the-merge", "C13.R14", du.rel, _splice_many(du.src, [(tr, _seg(du, note) + "\n" + _indent(du, tr) + _seg(du, tr)), (note, "pass")]), expect="final config"))
+    sp = corpus.mod("parsers.sphinx_")
+    f = sp.func("MystParser.parse")
+    note = find_node(f, lambda n: isinstance(n, ast.If) and _mentions_deprecated(n.body))
+    if note is not None:
+        out.append(Mutant("c13-45d3d4c-reverted-sphinx-has-no-per-document-notice", "C13.R14", sp.rel, splice(sp.src, note, "pass"), expect="final config"))
+        pos = next((r for c, fl, r in _option_membership_tests(note.test) if isinstance(r, ast.Name)), None)
+        if pos is not None:
+            out.append(Mutant("c13-sphinx-notice-tests-the-global-config", "C13.R14", sp.rel, splice(sp.src, pos, "env.myst_config"), expect="final config"))
     return out
